@@ -213,6 +213,18 @@ def corpus_findings(pid, suite, detectors):
     return extra
 
 
+def c10_extra(tier, seed, outdir, broken, violations, findings_seen):
+    import cli
+    ok, log = cli.build_cli()
+    if not ok:
+        broken.append({"kind": "cli-build", "detail": log})
+        return {}
+    stats, failures = cli.prover_exploration(60 if tier == "quick" else 1500, seed)
+    for f in failures[:10]:
+        violations.append(dict(f, property="C10", kind="stand-in prover exploration: implementation verdict/hand-over differs from the model"))
+    return stats
+
+
 def replay(pid, path):
     doc = json.loads(Path(path).read_text())
     print(json.dumps(doc, indent=1)[:4000])
@@ -432,6 +444,33 @@ PROPS = {
         "technique": "Lean 4 proof (integer induction + substitution lemma; fold invariants) + differential correspondence",
         "design_ref": "DESIGN.md 6/C13",
         "trusted_base": COMMON_TRUST,
+        "assumptions": COMMON_ASSUME,
+    },
+    "C10": {
+        "suites": [("status", 8000, 200000)],
+        "extra": c10_extra,
+        "rule": "(a) Status::from_str vs Lean `statusOf` on generated prover outputs (all seven SZS words, near-miss words, missing/duplicated separators, several status lines, non-ASCII); "
+                "(b) the real CLI `verify --equivalence strong` with a stand-in `vampire` first in PATH that records its stdin and answers per plan (13 outcome kinds incl. crash, non-UTF-8, "
+                "non-zero exit, second-line Theorem; missing executable), prover instances 1..8, random delays: verdict line vs the model's verdict, number of prover runs = number of problems, "
+                "recorded stdin multiset = --save-problems files, distinct problem names",
+        "level_text": "Partial: verdict_iff, fault_fails, non_theorem_fails, verdict_perm, pool_invariant, pool_complete, pool_progress, pool_measure, success_iff_all_theorem proved for the model "
+                      "(all arrival orders, all worker counts); the status regex is tied by correspondence; threadpool/mpsc/process/pipe behaviour is modelled, not verified, and explored with the stand-in prover.",
+        "level_note": PROOF_NOTE + " A prover that prints Theorem and exits non-zero counts as proven (the source ignores the exit status); a prover that does not read its stdin may produce a write error.",
+        "technique": "Lean 4 proof (fold lemmas, permutation invariance, transition-system invariant/variant) + differential correspondence (status) + stand-in prover exploration of the CLI",
+        "design_ref": "DESIGN.md 6/C10",
+        "trusted_base": COMMON_TRUST + ["OS process/pipe semantics, threadpool and mpsc crates (modelled as a transition system)"],
+        "assumptions": COMMON_ASSUME + ["no worker thread panics (the unwraps in prove are on a freshly piped stdin and an open channel)"],
+    },
+    "C20": {
+        "suites": [("files", 1500, 40000)],
+        "rule": "seeded directory trees (depth <= 2, file names with every relevant extension shape: .lp .spec .ug .po .LP .lp.bak '.', leading dots, no extension, names that sort differently by byte order) "
+                "created under /verif/work, given to Files::sort in random argument order; all five buckets and all six accessors vs the Lean model",
+        "level_text": "Full for the model: bucket_by_extension, spec_anywhere / ug_anywhere / po_anywhere (invariance under every permutation of the visited files), lp_roles, swap_programs proved; "
+                      "Path::extension, WalkDir order and the filesystem are tied by correspondence on real directory trees.",
+        "level_note": PROOF_NOTE + " walkdir and the filesystem are modelled (sorted depth-first walk), not verified.",
+        "technique": "Lean 4 proof (list filtering/permutation lemmas) + differential correspondence on real directory trees",
+        "design_ref": "DESIGN.md 6/C20",
+        "trusted_base": COMMON_TRUST + ["walkdir / filesystem enumeration (modelled)"],
         "assumptions": COMMON_ASSUME,
     },
 }
